@@ -143,6 +143,7 @@ InitNode ==
     hbr |-> 0,                                        \* heartbeatRound: replication rounds started so far
     cnt |-> <<>>,                                     \* round key <<kind, k>> -> responses counted (1 = the node itself)
     pwon |-> 0,                                       \* (history) the term the prevote round that permitted the node's candidacy asked about
+    apl |-> 0,                                        \* (Env:SnapWindow) index up to which the effects of applying have been modelled
     park |-> FALSE,                                   \* an InstallSnapshot handler that kept the log waits to compact it
     spub |-> FALSE,                                   \* takeSnapshot has published its file but not taken the lock again
     xops |-> 0,                                       \* (history) ... of which client operations
@@ -438,13 +439,20 @@ ApplyCfgs(s, i, hi) ==
            s2 == IF out THEN [s1 EXCEPT !.role = "F", !.pend = <<>>, !.reads = {}, !.svq = TRUE] ELSE s1 IN
        ApplyCfgs(s2, i + 1, hi)
 
-Fin(old, new) ==
-  LET s0 == IF new.commit > old.commit THEN ApplyCfgs(new, old.commit + 1, new.commit) ELSE new
-      s1 == [s0 EXCEPT !.pend = [i \in {j \in DOMAIN s0.pend : ~(j > old.commit /\ j <= new.commit /\ HasIdx(new.log, j) /\ At(new.log, j).k = "op")}
+\* (with Env:SnapWindow the apply loop is modelled as paused between publication and adoption of the
+\* node's own snapshot - the code's `snapshotting' flag -: what applying does is deferred until the
+\* adoption step, `apl' = index up to which it has been done)
+FinFrom(lo, new) ==
+  LET s0 == IF new.commit > lo THEN ApplyCfgs(new, lo + 1, new.commit) ELSE new
+      s1 == [s0 EXCEPT !.pend = [i \in {j \in DOMAIN s0.pend : ~(j > lo /\ j <= new.commit /\ HasIdx(new.log, j) /\ At(new.log, j).k = "op")}
                                    |-> s0.pend[i]]]
-      s2 == IF new.commit > old.commit THEN CompactParked(s1) ELSE s1
-      s3 == IF s2.commit > old.commit THEN TakeSnapshot(s2) ELSE s2 IN
+      s2 == IF new.commit > lo THEN CompactParked(s1) ELSE s1
+      s3 == IF s2.commit > lo THEN TakeSnapshot(s2) ELSE s2 IN
   [s3 EXCEPT !.reads = s3.reads \ Servable(s3)]
+Fin(old, new) ==
+  IF ~SnapWindow THEN FinFrom(old.commit, new)
+  ELSE IF old.spub /\ new.spub THEN new
+  ELSE [FinFrom(old.apl, new) EXCEPT !.apl = new.commit]
 
 \* bookkeeping shared by all actions that change node n from `old' to `new'
 Observe(n, old, new, el, c, vd, ak, v) ==
@@ -701,7 +709,7 @@ Crash(n) ==
          ccf == IF top = 0 THEN s.scfg ELSE IF sec # 0 THEN asCfg(sec) ELSE s.scfg
          s1 == [InitNode EXCEPT !.me = s.me, !.role = "D", !.term = dt, !.vote = dv, !.dterm = dt, !.dvote = dv,
                                 !.log = s.log, !.snap = s.snap, !.li = s.snap, !.commit = s.snap.idx,
-                                !.scfg = s.scfg, !.cfg = cf, !.ccfg = ccf, !.xtra = s.xtra, !.xops = s.xops] IN
+                                !.scfg = s.scfg, !.cfg = cf, !.ccfg = ccf, !.xtra = s.xtra, !.xops = s.xops, !.apl = s.snap.idx] IN
      /\ ns' = [ns EXCEPT ![n] = s1]
      \* C08: the term a node has shown to others never decreases, not even across a crash
      /\ elected' = elected /\ comm' = comm /\ voted' = voted /\ acked' = acked
@@ -711,7 +719,7 @@ Crash(n) ==
 \* takeSnapshot's second critical section (only with Env:SnapWindow)
 AdoptSnapshot(n) ==
   /\ Up(n) /\ ns[n].spub
-  /\ ns' = [ns EXCEPT ![n] = AdoptNode(ns[n])]
+  /\ ns' = [ns EXCEPT ![n] = Fin(ns[n], AdoptNode(ns[n]))]
   /\ UNCHANGED <<net, budget, elected, comm, voted, acked, viol>>
 
 Restart(n) ==
